@@ -95,7 +95,56 @@ def seekable_sources(data: bytes, workdir: str):
         b.seek(len(pre))
         return b
 
+    import tempfile  # noqa: PLC0415
+
+    def named_tmp():                       # a delegating wrapper object, not an io.IOBase instance
+        f = tempfile.NamedTemporaryFile(dir=workdir)  # noqa: SIM115
+        f.write(data)
+        f.seek(0)
+        return f
+
+    def spooled(max_size):
+        def opener():
+            f = tempfile.SpooledTemporaryFile(max_size=max_size, dir=workdir)  # noqa: SIM115
+            f.write(data)
+            f.seek(0)
+            return f
+        return opener
+
+    class Duck:
+        """A progress-bar style wrapper: read/seek/tell/seekable, context manager, nothing else."""
+
+        def __init__(self):
+            self._f = io.BytesIO(data)
+
+        def read(self, n=-1):
+            return self._f.read(n)
+
+        def seek(self, *a):
+            return self._f.seek(*a)
+
+        def tell(self):
+            return self._f.tell()
+
+        def seekable(self):
+            return True
+
+        def readable(self):
+            return True
+
+        def __enter__(self):
+            return self
+
+        def __exit__(self, *a):
+            return False
+
+    def buffered_random():
+        fh = open(p, "r+b")  # noqa: SIM115
+        return fh
+
     return [("BytesIO", lambda: io.BytesIO(data)), ("BytesIO-at-offset", bio_at),
+            ("NamedTemporaryFile", named_tmp), ("SpooledTemporaryFile-in-memory", spooled(10**9)), ("SpooledTemporaryFile-rolled-over", spooled(1)),
+            ("duck-typed-wrapper", Duck), ("BufferedRandom", buffered_random),
             ("BufferedReader", at(p, 0)), ("BufferedReader-16", at(p, 0, buffering=16)), ("BufferedReader-2", at(p, 0, buffering=2)),
             ("BufferedReader-at-offset", at(p + ".pre", len(pre))), ("BufferedReader-at-buffer-edge", at(p + ".edge", edge)),
             ("gzip", lambda: gzip.open(p + ".gz", "rb")), ("gzip-two-members", lambda: gzip.open(p + ".2.gz", "rb"))]
